@@ -372,6 +372,26 @@ theorem pixels_eq_run (pl : Polyline) (w : Nat) (hw : 2 ≤ w) (bb : Rect)
   intro s _
   rw [moveS_points]
 
+/-- Whatever the budget: the model's `pixels()` of a stroked polyline of width > 1 is the first
+`budget` points of the scanlines of the run walked point by point (so `PolyPixelBudgetOK` fails only
+by truncation). -/
+theorem pixels_prefix_run (pl : Polyline) (w : Nat) (hw : 2 ≤ w) (bb : Rect)
+    (hbb : untranslatedBoundingBox pl w = some bb) :
+    ∃ L, polyScanlineRun pl w = some L ∧
+      pixels pl w = some ((L.flatMap (fun s => (moveS s pl.translate).points)).take
+        (polyPixelBudget bb * (pl.vertices.length + 1))) := by
+  obtain ⟨si, hsi, hok⟩ := PolyScanlines.new_total pl w
+  obtain ⟨L, hL, hrun, hne⟩ := polyLines si hok
+  refine ⟨L, by unfold polyScanlineRun; rw [hsi]; exact hL, ?_⟩
+  obtain ⟨it, hit, hpix⟩ := polyPix_new pl w si hsi L hrun hne
+  obtain ⟨k, rfl⟩ : ∃ k, w = k + 2 := ⟨w - 2, by omega⟩
+  unfold pixels
+  simp only [hbb, hit, Option.bind_eq_bind, Option.bind_some]
+  rw [polyThickPixels_toListFuel_eq, hpix.listFuel_take, List.map_flatMap]
+  congr 3
+  funext s
+  rw [moveS_points]
+
 /-! ### the write sequences of `draw()` and of `draw_iter(pixels())` -/
 
 theorem toRectangle_of_nonempty {s : Scanline} (h : s.isEmpty = false) :
@@ -468,10 +488,11 @@ instance (pl : Polyline) (w : Nat) : Decidable (PolyRectsInRange pl w) := by
   unfold PolyRectsInRange; split <;> exact inferInstance
 
 /-- Guard (model artefact): the fuel with which the model drains `pixels()` of a polyline of width
-> 1 (`polyPixelBudget bb * (n + 1)`) was not used up, i.e. the model's pixel list is complete. -/
+> 1 (`polyPixelBudget bb * (n + 1)`) was not used up, i.e. the model's pixel list is complete
+(nothing to ask for widths 0 and 1). -/
 def PolyPixelBudgetOK (pl : Polyline) (w : Nat) : Prop :=
   match pixels pl w, untranslatedBoundingBox pl w with
-  | some ps, some bb => ps.length < polyPixelBudget bb * (pl.vertices.length + 1)
+  | some ps, some bb => w < 2 ∨ ps.length < polyPixelBudget bb * (pl.vertices.length + 1)
   | _, _ => True
 
 instance (pl : Polyline) (w : Nat) : Decidable (PolyPixelBudgetOK pl w) := by
@@ -502,10 +523,12 @@ theorem polyStyled_writes (pl : Polyline) (w : Nat) (sc : Option Color) (B : Rec
         simp only [Option.map_some, Option.some.injEq] at hc hp
         subst hc hp
         apply poly_writes pl w c B d ps hd hps
-        · intro bb _ hbb
+        · intro bb hw hbb
           unfold PolyPixelBudgetOK at hb
           rw [hps, hbb] at hb
-          exact hb
+          rcases hb with hb | hb
+          · omega
+          · exact hb
         · unfold PolyRectsInRange at hr
           rw [hd] at hr
           exact hr
